@@ -1,27 +1,58 @@
 import IbModel.Model.Sketches
 import IbModel.Proofs.Sketches
+import IbModel.Proofs.SketchesSorted
 import IbModel.Proofs.SketchesKMV
 /-!
 # C15 — approximate aggregations stay within their stated bounds
 
-Property theorems only (helper lemmas: `Proofs/Sketches.lean`, `Proofs/SketchesKMV.lean`).
+Property theorems only (helper lemmas: `Proofs/Sketches.lean`, `Proofs/SketchesSorted.lean`, `Proofs/SketchesKMV.lean`).
 
-* t-digest (`src/combiners/quantiles.rs`), exact arithmetic (`α := Rat`): the invariant and its
-  preservation; for EVERY merge tree over EVERY input and EVERY `q` (also outside `[0,1]`): the estimate
-  lies between the smallest and the largest input, equals them for `q ≤ 0` / `q ≥ 1`, is NaN (`none`) iff
-  there is no input; total weight = number of inputs; non-finite inputs are ignored (any carrier).
-  **Negation** `quantile_not_monotone`: the estimate is NOT monotone in `q` (known finding).
-  The clamp added by `fix: clamp …` is the identity in exact arithmetic (`quantile_eq_legacy`); what it
-  guards against (rounding / overflow on `f64`) is outside exact arithmetic and is checked by the strict
-  oracle of the harness on real doubles.
-* KMV (`src/combiners/distinct.rs`), ranks in `Nat` (only `<` and `==` are used; the hash is a parameter):
-  for EVERY merge tree the kept set is THE `k` smallest distinct ranks of the input (`kmv_state` +
-  `kmv_state_unique`), hence set, heap and the estimate depend on the MEMBERS of the input only — not on
-  duplicates, order or partitioning (`kmv_independent`); `|heap| ≤ k`; heap and set agree; the count is exact
-  while #distinct < k (hypothesis: the hash is injective on the inputs); otherwise `(k−1)/r_k` with `r_k` the
-  largest kept rank.
-* NOT provable here (statistical accuracy, checked empirically only): the rank error of the t-digest and
-  the error band of the KMV estimator.
+## What is proved over which carrier (read this before trusting a theorem name)
+
+The model (`Model/Sketches.lean`) is generic over the numeric carrier. The driver runs it on `Float` (IEEE
+binary64, the type of the real code) and `bin/ibcheck` compares every number it prints with the real code's
+answer to 1e-12 relative, `inf`/`NaN` literally. Lean's `Float` operations are opaque to the kernel, so NO
+arithmetic fact about `Float` can be a theorem here. Consequently:
+
+* **`Rat`-ONLY (exact arithmetic)** — everything that needs an order or field law: the invariant `TDInv` and its
+  preservation, `tdigest_sorted_*`, `tdigest_tree_*`, `quantile_in_range*`, `quantile_zero*`, `quantile_one*`,
+  `quantile_none_iff_empty*`, `approxQuantiles_*`, `approxMedian_spec`, `quantile_between_endpoints`,
+  `quantile_monotone_same_cover*`, `quantile_inversion_only_where_cover_changes`, `quantile_eq_legacy`, and the
+  negation witnesses. They say what the ALGORITHM guarantees; they do not see rounding, overflow, subnormals or a
+  NaN that is `some NaN`. All three defects repaired in `quantiles.rs` for C15 that were arithmetic
+  (`ad184d4` estimate past `max` by rounding / `inf` / NaN by overflow; `994fdb6` merged mean out of order by
+  rounding or overflow) were invisible to these theorems and were found by the harness's strict oracle on real
+  doubles — that oracle (range with no tolerance, end points exact, NaN iff empty, sortedness of the queried
+  centroids, inversions classified by the real centroids) is the only guard on the `f64` side.
+* **ANY carrier, hence also `Float`** — facts that use no law of arithmetic or order, only the control flow:
+  `nonfinite_ignored`, `nonfinite_ignored_tree` (a non-finite input never reaches the digest) and
+  `quantile_shape_any_carrier` (the value returned by `quantile` is `min`, `max`, the mean of a stored centroid,
+  or a value `v` that passed the final clamp, i.e. `¬ v < min ∧ ¬ v > max`; on doubles the last alternative
+  is "inside `[min,max]` or NaN").
+* **KMV** — over `Nat` ranks (only `<` and `==` are used). The real rank is `(hash as f64) / 2^64`; the
+  correspondence to `f64` ranks is checked by the driver on `Float`, not proved. `k = 0` (public field) and
+  `add_weighted` with weight ≠ 1 are outside the theorems (`k = 0`: correspondence only).
+* **NOT provable here (statistical accuracy, checked empirically only)**: the rank error of the t-digest and
+  the error band of the KMV estimator. No theorem about `cdf`.
+
+## Contents
+
+* t-digest (`src/combiners/quantiles.rs`), `α := Rat`: the invariant and its preservation; the centroids are
+  sorted by mean at ALL times (`add` inserts in order since `673b7b5`, `compress` sorts and keeps the order since
+  `994fdb6`); for EVERY merge tree over EVERY input and EVERY `q` (also outside `[0,1]`): the estimate lies
+  between the smallest and the largest input, equals them for `q ≤ 0` / `q ≥ 1`, is NaN (`none`) iff there is no
+  input; total weight = number of inputs.
+  **Negation** `quantile_not_monotone`: the estimate is NOT monotone in `q` (known finding). What does hold:
+  `quantile_monotone_same_cover` — on every reachable digest the estimate can only decrease between two `q` whose
+  covering branch (`TDigest.cover`: which centroid the walk stops at) differs, i.e. at a centroid boundary. The
+  harness attributes an observed inversion to the known finding only if the REAL centroids show exactly that.
+  **Negation** `legacy_append_quantile_decreases_inside_one_centroid`: before `673b7b5` a digest queried straight
+  after out-of-order `add`s decreased inside one centroid (real code: `100,99,…,1` gave q̂(0.05)=95, q̂(0.95)=5).
+* KMV (`src/combiners/distinct.rs`): for EVERY merge tree the kept set is THE `k` smallest distinct ranks of the
+  input (`kmv_state` + `kmv_state_unique`), hence set, heap and the estimate depend on the MEMBERS of the input
+  only — not on duplicates, order or partitioning (`kmv_independent`); `|heap| ≤ k`; heap and set agree; the count
+  is exact while #distinct < k (hypothesis: the hash is injective on the inputs); otherwise `(k−1)/r_k` with `r_k`
+  the largest kept rank.
 -/
 set_option linter.unusedSectionVars false
 namespace IB.Sketches
@@ -39,6 +70,13 @@ theorem tdigest_inv_compress (d : TDigest Rat) (h : TDInv d) : TDInv d.compress 
     centroids are sorted by mean -/
 theorem tdigest_sorted_after_compress (d : TDigest Rat) (h : TDInv d) :
     d.compress.centroids.Pairwise (fun a b => a.mean ≤ b.mean) := compress_sorted h
+
+/-- … and in fact at ALL times: every accumulator the engine can build (any merge tree, element-wise leaves that
+    were never compressed included) has its centroids sorted by mean — `add` inserts in order, `compress` keeps the
+    order. `quantile` and `cdf` walk the centroids in order, so this is what makes a query between two
+    compressions meaningful (before `673b7b5` it was not: `legacy_append_quantile_decreases_inside_one_centroid`). -/
+theorem tdigest_sorted_always (δ : Rat) (t : MTree Rat) :
+    (t.eval δ).centroids.Pairwise (fun a b => a.mean ≤ b.mean) := eval_sorted δ t
 
 /-- every accumulator the engine can build (any merge tree, element-wise or lifted leaves) satisfies the
     invariant and summarises exactly its inputs: total weight = n, `min`/`max` = those of the inputs -/
@@ -167,6 +205,31 @@ theorem nonfinite_ignored_tree (δ : α) (t : MTree α) :
     t.eval δ = t.finiteOnly.eval δ ∧ t.finiteOnly.leaves = t.leaves.filter isFinite :=
   ⟨(eval_finiteOnly δ t).symm, leaves_finiteOnly t⟩
 
+/-- what `quantile` can return on ANY carrier — in particular on IEEE doubles, where the comparisons are false
+    on NaN: `min`, `max`, the mean of a stored centroid, or a value that passed the final clamp
+    (`¬ v < min ∧ ¬ v > max`). No order or arithmetic law is used. -/
+theorem quantile_shape_any_carrier (d : TDigest α) (q : α) :
+    (d.quantile q = none ∧ (d.centroids = [] ∨ d.min = none ∨ d.max = none)) ∨
+    ∃ mn mx v, d.min = some mn ∧ d.max = some mx ∧ d.quantile q = some v ∧ QShape d.centroids mn mx v := by
+  unfold TDigest.quantile
+  cases hc : d.centroids with
+  | nil => exact Or.inl ⟨rfl, Or.inl rfl⟩
+  | cons c cs =>
+    cases hmn : d.min with
+    | none => exact Or.inl ⟨rfl, Or.inr (Or.inl rfl)⟩
+    | some mn =>
+      cases hmx : d.max with
+      | none => exact Or.inl ⟨rfl, Or.inr (Or.inr rfl)⟩
+      | some mx =>
+        refine Or.inr ⟨mn, mx, _, rfl, rfl, rfl, ?_⟩
+        unfold quantileCoreWith
+        simp only
+        split
+        · exact Or.inl rfl
+        · split
+          · exact Or.inr (Or.inl rfl)
+          · exact quantileLoop_shape mn mx _ (c :: cs) mn zero
+
 end generic
 
 /-! ## the clamp of `fix: clamp …` is invisible in exact arithmetic; the pre-fix code already stayed in range there -/
@@ -267,9 +330,10 @@ example : ∃ v₁ v₂, witnessDigest.quantile (26 / 100) = some v₁ ∧ witne
   · simp [lastMean, rightMean]; grind
   all_goals first | (simp [witnessDigest, wsum]; done) | (simp [witnessDigest, wsum]; grind) | grind
 
-/-- what does hold (`…_partial`), part 2: the two end points bracket every estimate, i.e. monotone between
-    `q ≤ 0`, any `q`, and `q ≥ 1`. Full statement that is false: `∀ q₁ ≤ q₂, q̂(q₁) ≤ q̂(q₂)`. -/
-theorem quantile_monotone_partial (δ : Rat) (t : MTree Rat) (hne : t.leaves ≠ []) (q : Rat) :
+/-- the two end points bracket every estimate: `q̂(0) ≤ q̂(q) ≤ q̂(1)`. This is range containment restated through
+    the end points (it is NOT a monotonicity statement for interior `q`; that one is false:
+    `quantile_not_monotone`; what holds for interior `q` is `quantile_monotone_same_cover`). -/
+theorem quantile_between_endpoints (δ : Rat) (t : MTree Rat) (hne : t.leaves ≠ []) (q : Rat) :
     ∃ v0 v v1, (t.eval δ).quantile 0 = some v0 ∧ (t.eval δ).quantile q = some v ∧ (t.eval δ).quantile 1 = some v1 ∧
       v0 ≤ v ∧ v ≤ v1 := by
   obtain ⟨mn, hmin, h0⟩ := quantile_zero δ t hne
@@ -278,6 +342,179 @@ theorem quantile_monotone_partial (δ : Rat) (t : MTree Rat) (hne : t.leaves ≠
   have e1 : mn = mn' := Rat.le_antisymm (hmin.2 _ hmin'.1) (hmin'.2 _ hmin.1)
   have e2 : mx = mx' := Rat.le_antisymm (hmax'.2 _ hmax.1) (hmax.2 _ hmax'.1)
   exact ⟨mn, v, mx, h0, hv, h1, e1 ▸ hl, e2 ▸ hr⟩
+
+/-! ## what does hold about monotonicity: the estimate can only decrease where the covering branch changes
+
+`TDigest.cover d q` names the branch of `quantile` that answers `q`: the `min` / `max` short cuts, the index of the
+centroid the walk stops at, or the fall-through. The hypotheses of `quantile_monotone_within_centroid_partial`
+above (sorted neighbours, positive weights, a decomposition of the centroid list) are discharged here for EVERY
+digest the engine can build and for the digest `finish` queries. -/
+
+theorem quantile_monotone_same_cover_of {d : TDigest Rat} (h : TDInv d) (hs : SortedC d.centroids)
+    (hne : d.centroids ≠ []) (q₁ q₂ : Rat) (hq : q₁ ≤ q₂) (hc : d.cover q₁ = d.cover q₂) :
+    ∃ v₁ v₂, d.quantile q₁ = some v₁ ∧ d.quantile q₂ = some v₂ ∧ v₁ ≤ v₂ := by
+  obtain ⟨mn, mx, hmn, hmx, hle, hall, hone⟩ := h.range hne
+  have htot : 0 ≤ d.total := by
+    rw [h.total_eq]; have := wsum_pos_of_ok hne hall; grind
+  cases hcs : d.centroids with
+  | nil => exact absurd hcs hne
+  | cons c cs =>
+    refine ⟨_, _, quantile_eq hcs hmn hmx q₁, quantile_eq hcs hmn hmx q₂, ?_⟩
+    have hq' : clamp q₁ 0 1 ≤ clamp q₂ 0 1 := clamp_mono (by grind) hq
+    unfold TDigest.cover at hc
+    simp only [hcs, rat_zero, rat_one] at hc
+    unfold quantileCoreWith
+    simp only [rat_zero, rat_one]
+    generalize clamp q₁ 0 1 = a at hc hq' ⊢
+    generalize clamp q₂ 0 1 = b at hc hq' ⊢
+    by_cases A1 : (decide (abs (a - 0) ≤ eps) || (c :: cs).length == 1) = true
+    · by_cases A2 : (decide (abs (b - 0) ≤ eps) || (c :: cs).length == 1) = true
+      · simp only [A1, A2, ↓reduceIte]; exact Rat.le_refl
+      · exfalso
+        simp only [A1, A2, ↓reduceIte, Bool.false_eq_true] at hc
+        split at hc
+        · cases hc
+        · exact coverLoop_ne_min _ _ _ _ hc.symm
+    · by_cases A2 : (decide (abs (b - 0) ≤ eps) || (c :: cs).length == 1) = true
+      · exfalso
+        simp only [A1, A2, ↓reduceIte, Bool.false_eq_true] at hc
+        split at hc
+        · cases hc
+        · exact coverLoop_ne_min _ _ _ _ hc
+      · simp only [A1, A2, ↓reduceIte, Bool.false_eq_true] at hc ⊢
+        by_cases B1 : abs (a - 1) ≤ eps
+        · by_cases B2 : abs (b - 1) ≤ eps
+          · simp only [B1, B2, ↓reduceIte]; exact Rat.le_refl
+          · exfalso
+            simp only [B1, B2, ↓reduceIte] at hc
+            exact coverLoop_ne_max _ _ _ _ hc.symm
+        · by_cases B2 : abs (b - 1) ≤ eps
+          · exfalso
+            simp only [B1, B2, ↓reduceIte] at hc
+            exact coverLoop_ne_max _ _ _ _ hc
+          · simp only [B1, B2, ↓reduceIte] at hc ⊢
+            have hmul : a * d.total ≤ b * d.total := by
+              have := Rat.mul_nonneg (a := b - a) (b := d.total) (by grind) htot
+              grind
+            rw [hcs] at hall hs
+            have hs' := List.pairwise_cons.mp hs
+            exact quantileLoop_mono_same_cover mn mx hle _ _ hmul (c :: cs) mn 0 0 hall hs
+              (fun x hx => (hall x hx).2.1) hle hc
+
+/-- `TDigest::quantile(s)` on the merged accumulator of ANY merge tree: `q₁ ≤ q₂` answered by the same branch give
+    `q̂(q₁) ≤ q̂(q₂)` -/
+theorem quantile_monotone_same_cover (δ : Rat) (t : MTree Rat) (hne : t.leaves ≠ []) (q₁ q₂ : Rat) (hq : q₁ ≤ q₂)
+    (hc : (t.eval δ).cover q₁ = (t.eval δ).cover q₂) :
+    ∃ v₁ v₂, (t.eval δ).quantile q₁ = some v₁ ∧ (t.eval δ).quantile q₂ = some v₂ ∧ v₁ ≤ v₂ :=
+  quantile_monotone_same_cover_of (eval_sound δ t).1 (eval_sorted δ t)
+    (fun h0 => hne ((centroids_nil_iff (eval_sound δ t).1 (eval_sound δ t).2).mp h0)) q₁ q₂ hq hc
+
+/-- … and on the digest that `ApproxQuantiles::finish` / `ApproxMedian::finish` query (one more `compress`;
+    `approxQuantilesFinish qs d = d.compress.quantiles qs` for a non-empty `d` by definition) -/
+theorem approxQuantiles_monotone_same_cover (δ : Rat) (t : MTree Rat) (hne : t.leaves ≠ []) (q₁ q₂ : Rat) (hq : q₁ ≤ q₂)
+    (hc : (t.eval δ).compress.cover q₁ = (t.eval δ).compress.cover q₂) :
+    ∃ v₁ v₂, (t.eval δ).compress.quantile q₁ = some v₁ ∧ (t.eval δ).compress.quantile q₂ = some v₂ ∧ v₁ ≤ v₂ :=
+  quantile_monotone_same_cover_of (compress_inv (eval_sound δ t).1) (compress_sorted (eval_sound δ t).1)
+    (fun h0 => hne ((centroids_nil_iff (compress_inv (eval_sound δ t).1) (compress_summary (eval_sound δ t).2)).mp h0))
+    q₁ q₂ hq hc
+
+/-- contrapositive, the form the harness uses: an inversion `q₁ ≤ q₂`, `q̂(q₂) < q̂(q₁)` on a reachable digest sits
+    where the covering branch changes (a centroid boundary) — in exact arithmetic never inside one centroid -/
+theorem quantile_inversion_only_where_cover_changes (δ : Rat) (t : MTree Rat) (q₁ q₂ v₁ v₂ : Rat) (hq : q₁ ≤ q₂)
+    (h1 : (t.eval δ).quantile q₁ = some v₁) (h2 : (t.eval δ).quantile q₂ = some v₂) (hinv : v₂ < v₁) :
+    (t.eval δ).cover q₁ ≠ (t.eval δ).cover q₂ := by
+  intro hc
+  have hne : t.leaves ≠ [] := by
+    intro h0
+    have := (quantile_none_iff_empty δ t q₁).mpr h0
+    rw [h1] at this; cases this
+  obtain ⟨w₁, w₂, e1, e2, hle⟩ := quantile_monotone_same_cover δ t hne q₁ q₂ hq hc
+  rw [h1] at e1; rw [h2] at e2
+  cases e1; cases e2
+  grind
+
+/-- non-vacuity: on the witness digest every `q ∈ (0.25, 0.5]` is answered by the second centroid (so `0.26 ≤ 0.49`
+    satisfy the hypothesis), while `q = 0.25` is answered by the first: the inversion of `quantile_not_monotone`
+    between `0.25` and `0.26` sits at a change of cover -/
+theorem witness_cover_second (q : Rat) (h1 : 1 / 4 < q) (h2 : q ≤ 1 / 2) : witnessDigest.cover q = .at 1 := by
+  unfold TDigest.cover
+  have : clamp q 0 1 = q := clamp_id (by grind) (by grind)
+  simp only [witnessDigest, rat_zero, rat_one, this, rat_abs, rat_eps]
+  rw [if_neg, if_neg]
+  · unfold coverLoop; simp only; rw [if_neg (by grind)]
+    unfold coverLoop; simp only; rw [if_pos (by grind)]
+  · grind
+  · simp only [Bool.or_eq_true, decide_eq_true_eq, beq_iff_eq]; simp; grind
+
+theorem witness_cover_first : witnessDigest.cover (1 / 4) = .at 0 := by
+  unfold TDigest.cover
+  have : clamp (1 / 4 : Rat) 0 1 = 1 / 4 := clamp_id (by grind) (by grind)
+  simp only [witnessDigest, rat_zero, rat_one, this, rat_abs, rat_eps]
+  rw [if_neg, if_neg]
+  · unfold coverLoop; simp only; rw [if_pos (by grind)]
+  · grind
+  · simp only [Bool.or_eq_true, decide_eq_true_eq, beq_iff_eq]; simp; grind
+
+example : witnessDigest.cover (26 / 100) = witnessDigest.cover (49 / 100) ∧ witnessDigest.cover (1 / 4) ≠ witnessDigest.cover (26 / 100) := by
+  rw [witness_cover_second _ (by grind) (by grind), witness_cover_second _ (by grind) (by grind), witness_cover_first]
+  exact ⟨rfl, by intro h; cases h⟩
+
+/-! ## NEGATION (code before `673b7b5`, `Legacy.add` appends): a digest queried between two compressions walked
+    UNSORTED centroids; the estimate then decreases INSIDE one centroid — not the saw-tooth of the known finding.
+    Inputs `3, 1, 2`, δ = 100 (reproduced on the real crate before the fix: `TDIGEST … raw full L3 [3,1,2]
+    qs=[0.5,0.6]` answered `Q F2.5 F2.2 … INV U0`; now `Q F2.0 F2.2…`) -/
+
+def legacyWitness : TDigest Rat := ⟨100, [⟨3, 1⟩, ⟨1, 1⟩, ⟨2, 1⟩], 3, some 1, some 3⟩
+
+theorem legacyWitness_eq : Legacy.foldAdd (100 : Rat) [3, 1, 2] = legacyWitness := by
+  have e1 : Legacy.add (⟨100, [], 0, none, none⟩ : TDigest Rat) 3 = ⟨100, [⟨3,1⟩], 1, some 3, some 3⟩ := by
+    rw [legacy_add_explicit 100 _ _ _ _ _ (by simp; grind)]
+    simp only [ominV, omaxV, List.nil_append]; congr 1 <;> grind
+  have e2 : Legacy.add (⟨100, [⟨3,1⟩], 1, some 3, some 3⟩ : TDigest Rat) 1 = ⟨100, [⟨3,1⟩,⟨1,1⟩], 2, some 1, some 3⟩ := by
+    rw [legacy_add_explicit 100 _ _ _ _ _ (by simp; grind)]
+    simp only [ominV, omaxV, rat_fmin, rat_fmax, List.cons_append, List.nil_append]; congr 1 <;> grind
+  have e3 : Legacy.add (⟨100, [⟨3,1⟩,⟨1,1⟩], 2, some 1, some 3⟩ : TDigest Rat) 2 = legacyWitness := by
+    rw [legacy_add_explicit 100 _ _ _ _ _ (by simp; grind)]
+    simp only [legacyWitness, ominV, omaxV, rat_fmin, rat_fmax, List.cons_append, List.nil_append]; congr 1 <;> grind
+  simp only [Legacy.foldAdd, List.foldl, TDigest.new, rat_zero, e1, e2, e3]
+
+theorem legacyWitness_q50 : Legacy.quantile legacyWitness (1 / 2) = some (5 / 2) := by
+  rw [legacy_quantile_eq (c := ⟨3,1⟩) (cs := [⟨1,1⟩,⟨2,1⟩]) (mn := 1) (mx := 3) rfl rfl rfl]
+  rw [quantileCore_mid _ _ _ _ _ _ (by grind) (by grind) (by simp)]
+  rw [quantileLoop_skip _ _ _ _ _ _ _ (by simp [legacyWitness]; grind)]
+  rw [quantileLoop_hit _ _ _ _ _ _ _ _ (by simp [legacyWitness]; grind) (by simp; grind)]
+  simp only [legacyWitness, id]; congr 1; grind
+
+theorem legacyWitness_q60 : Legacy.quantile legacyWitness (3 / 5) = some (11 / 5) := by
+  rw [legacy_quantile_eq (c := ⟨3,1⟩) (cs := [⟨1,1⟩,⟨2,1⟩]) (mn := 1) (mx := 3) rfl rfl rfl]
+  rw [quantileCore_mid _ _ _ _ _ _ (by grind) (by grind) (by simp)]
+  rw [quantileLoop_skip _ _ _ _ _ _ _ (by simp [legacyWitness]; grind)]
+  rw [quantileLoop_hit _ _ _ _ _ _ _ _ (by simp [legacyWitness]; grind) (by simp; grind)]
+  simp only [legacyWitness, id]; congr 1; grind
+
+theorem legacyWitness_cover (q : Rat) (h1 : 1 / 3 < q) (h2 : q ≤ 2 / 3) : legacyWitness.cover q = .at 1 := by
+  unfold TDigest.cover
+  have : clamp q 0 1 = q := clamp_id (by grind) (by grind)
+  simp only [legacyWitness, rat_zero, rat_one, this, rat_abs, rat_eps]
+  rw [if_neg, if_neg]
+  · unfold coverLoop; simp only; rw [if_neg (by grind)]
+    unfold coverLoop; simp only; rw [if_pos (by grind)]
+  · grind
+  · simp only [Bool.or_eq_true, decide_eq_true_eq, beq_iff_eq]; simp; grind
+
+theorem legacy_append_quantile_decreases_inside_one_centroid :
+    ∃ (q₁ q₂ v₁ v₂ : Rat), q₁ ≤ q₂ ∧
+      (Legacy.foldAdd (100 : Rat) [3, 1, 2]).cover q₁ = (Legacy.foldAdd (100 : Rat) [3, 1, 2]).cover q₂ ∧
+      Legacy.quantile (Legacy.foldAdd (100 : Rat) [3, 1, 2]) q₁ = some v₁ ∧
+      Legacy.quantile (Legacy.foldAdd (100 : Rat) [3, 1, 2]) q₂ = some v₂ ∧ v₂ < v₁ := by
+  refine ⟨1 / 2, 3 / 5, 5 / 2, 11 / 5, by grind, ?_, ?_, ?_, by grind⟩
+  · rw [legacyWitness_eq, legacyWitness_cover _ (by grind) (by grind), legacyWitness_cover _ (by grind) (by grind)]
+  · rw [legacyWitness_eq]; exact legacyWitness_q50
+  · rw [legacyWitness_eq]; exact legacyWitness_q60
+
+/-- the current `add` on the same inputs keeps the centroids in order: `[1, 2, 3]` -/
+example : (foldAdd (100 : Rat) [3, 1, 2]).centroids.Pairwise (fun a b => a.mean ≤ b.mean) :=
+  tdigest_sorted_always 100 (.leaf [3, 1, 2])
 
 /-! ## KMV -/
 
